@@ -21,7 +21,7 @@ META = {
     "from_fill_fn, random and from_dense (classmethod and utils helper) are called on every class that can represent it (static class, dynamic class with the symmetry "
     "as string and as object) with the optional arguments given and omitted, and the results compared pairwise with the harness's own expectation (tables, charge, symmetry, "
     "blocks exactly); a static class given a mismatching symmetry and a dynamic class given none must refuse; dense trips under sorted / reversed / interleaved / seeded labelings; "
-    "to_dense against the harness embedding. non-trivial = at least one dual index and >=2 stored sectors",
+    "to_dense against the harness embedding, also for arrays whose blocks have differing element types (real/complex, int/float, float32/float64, narrow stored first or last). non-trivial = at least one dual index and >=2 stored sectors",
     "bounds": {"quick": "n<=2 menu core, n=3 menu m3", "thorough": "n=3 menu core"},
     "assumptions": [
         "from_blocks can only know the charges that occur in the given blocks: compared with tables restricted to those charges",
@@ -253,6 +253,29 @@ def dense_failures(d, seed, st=None):
         except Exception as ex:
             if x.blocks or n:
                 fails.append((f"C16/{name}/raised-{type(ex).__name__}", f"{ex}"))
+    # the same with blocks of differing element types (as left by a + 1j * b with sparse b, or by from_blocks with mixed blocks):
+    # narrow type stored first / last, integer next to fractional
+    if len(x.blocks) >= 2:
+        secs = list(x.blocks)
+        recipes = {
+            "real-first": lambda k, b: b if k == 0 else b + 1j * (b + 1),
+            "complex-first": lambda k, b: b + 1j * (b + 1) if k == 0 else b,
+            "int-first": lambda k, b: b.astype(np.int64) if k == 0 else b + 0.5,
+            "float32-first": lambda k, b: b.astype(np.float32) if k == 0 else b + 2.0 ** -40,
+        }
+        for rname, rec in recipes.items():
+            try:
+                xm = x.copy_with(blocks={sec: rec(k, np.asarray(x.blocks[sec])) for k, sec in enumerate(secs)})
+                Em = embed(xm)
+                T = xm.to_dense()
+                if st is not None:
+                    st.transitions += 1
+                if not exact_equal(T, Em):
+                    fails.append(("C16/to_dense[mixed-dtype]/value", f"{rname}: to_dense differs from the harness embedding of blocks with element types {[str(np.asarray(b).dtype) for b in xm.blocks.values()]}"))
+                elif np.asarray(T).dtype != Em.dtype:
+                    fails.append(("C16/to_dense[mixed-dtype]/dtype", f"{rname}: {np.asarray(T).dtype} expected {Em.dtype}"))
+            except Exception as ex:
+                fails.append((f"C16/to_dense[mixed-dtype]/raised-{type(ex).__name__}", f"{rname}: {ex}"))
     labs = [labelings(t, seed + 13 * ax) for ax, t in enumerate(fr)]
     for lname in ("sorted", "reversed", "interleaved", "seeded"):
         maps = [l[lname] for l in labs]
